@@ -297,15 +297,21 @@ func resolvePath(p *packages.Package, typ, path string) string {
 
 // shapeStr: a struct type's field types in order (names left out), any other type's underlying type string.
 func shapeStr(n *types.Named) string {
+	var ms []string
+	for i := 0; i < n.NumMethods(); i++ {
+		ms = append(ms, n.Method(i).Name())
+	}
+	sort.Strings(ms)
+	meths := " methods[" + strings.Join(ms, ",") + "]"
 	st, ok := n.Underlying().(*types.Struct)
 	if !ok {
-		return typeStr(n.Underlying())
+		return typeStr(n.Underlying()) + meths
 	}
 	var parts []string
 	for i := 0; i < st.NumFields(); i++ {
 		parts = append(parts, typeStr(st.Field(i).Type()))
 	}
-	return "struct{" + strings.Join(parts, "; ") + "}"
+	return "struct{" + strings.Join(parts, "; ") + "}" + meths
 }
 
 func recordType(p *packages.Package, name string, n *types.Named) {
